@@ -37,6 +37,17 @@ CLAIMED = {
     note=("Trusted: lianvc + encoding, z3; os.walk / yaml / DataModel query as uninterpreted specifications; opaque analysis callees with an assumed "
           "frame (do not touch the entry-point set); rule files well-typed; args/return_type criteria unused."),
     design='§4 C20'),
+ 'C03': dict(
+    text=("Proof (partial: the flattening / id mechanisms): on the real lang_analysis.py and basic.py, for all GIR statement trees (of the assumed frontend shape) and all "
+          "counters: GIRProcessing.{assign_id, init_stmt_id, is_gir_format, flatten_stmt, flatten_block, flatten_gir, flatten} assign every row a fresh id from one growing "
+          "counter, keep every id of a call inside [counter at entry, counter at exit), emit for a block exactly a start marker first and an end marker last carrying the "
+          "block id and the given parent, set body attributes to the returned block id, never reuse an id except for the (start,end) pair of one block, never remove rows; "
+          "LangAnalysis.adjust_node_id leaves a gap > 1 so that the two ids add_main_func invents (proved: max+1, max+2, above every id of the unit) stay below the next "
+          "file's first id (lemma over the three contracts). NOT decided: arbitrary text through tree-sitter and the frontends, the never-raises clause beyond these stages, "
+          "proper nesting as such (it follows from marker placement, not stated as a grammar), GIRBlockViewer."),
+    note=("Trusted: lianvc + encoding, z3. Assumed (hereditary, unchecked): frontend output shape (non-empty statement dicts, first key = operation, payload keys not "
+          "reserved). LangAnalysis.run is not under contract."),
+    design='§4 C03'),
  'C15': dict(
     text=("Proof (partial): for every history of save/get/export on a GeneralLoader, get_raw_item_by_id/get_item_by_id return the content most recently "
           "saved for the id: the representation invariant (index, active bundle, bundle files, bundle cache, item cache all describe the latest content per "
